@@ -30,6 +30,20 @@ Proof. unfold spaces. induction n; cbn; auto. Qed.
 (** * The count lines                                                       *)
 (* ====================================================================== *)
 
+Definition hd_fails (p : N -> bool) (s : bytes) : bool :=
+  match s with [] => true | c :: _ => negb (p c) end.
+
+Lemma span_while_app p a rest :
+  forallb p a = true -> hd_fails p rest = true -> span_while p (a ++ rest) = (a, rest).
+Proof.
+  intros Ha Hr. induction a as [|c a IH].
+  - change ([] ++ rest) with rest. destruct rest as [|c r]; [reflexivity|].
+    cbn [hd_fails] in Hr. cbn [span_while]. destruct (p c); [discriminate|reflexivity].
+  - cbn [forallb] in Ha. apply andb_true_iff in Ha as [Hc Ha].
+    change ((c :: a) ++ rest) with (c :: (a ++ rest)). cbn [span_while]. rewrite Hc, (IH Ha).
+    reflexivity.
+Qed.
+
 Lemma drop_spaces_spaces p c r :
   N.eqb c 32 = false -> drop_spaces (spaces p ++ c :: r) = (p, c :: r).
 Proof.
@@ -38,19 +52,43 @@ Proof.
   - rewrite IH. reflexivity.
 Qed.
 
-Lemma read_count_line_ok lead c sr p n :
-  N.eqb c 32 = false ->
-  read_count_line lead (c :: sr) (lead ++ spaces p ++ (c :: sr) ++ dec n)
-  = Some (p, n, length (dec n)).
+(* what the reader accepts as a label: a non-empty run of bytes other than space and newline *)
+Definition label_ok (l : bytes) : bool :=
+  match l with [] => false | _ :: _ => forallb is_label_char l end.
+
+Lemma label_ok_chars l : label_ok l = true -> forallb is_label_char l = true.
+Proof. destruct l; [discriminate|exact (fun H => H)]. Qed.
+
+Lemma label_ok_nonl l : label_ok l = true -> nonl l = true.
 Proof.
-  intros Hc. unfold read_count_line. rewrite strip_prefix_app.
-  change ((c :: sr) ++ dec n) with (c :: sr ++ dec n).
-  rewrite drop_spaces_spaces by exact Hc.
-  change (c :: sr ++ dec n) with ((c :: sr) ++ dec n).
-  rewrite strip_prefix_app, parse_dec_dec. reflexivity.
+  intros H. apply label_ok_chars in H. unfold nonl. rewrite forallb_forall in *.
+  intros c Hc. specialize (H c Hc). unfold is_label_char in H.
+  apply andb_true_iff in H as [_ H]. exact H.
 Qed.
 
-(* intPadding pads the shorter numeral only, up to the length of the longer one *)
+(* the two labels of go-snaps *)
+Lemma label_ok_snapshot : label_ok (B "Snapshot") = true. Proof. reflexivity. Qed.
+Lemma label_ok_received : label_ok (B "Received") = true. Proof. reflexivity. Qed.
+
+(* a count line with ANY label and ANY positive number of spaces behind it reads to its number *)
+Lemma read_count_line_ok mark lbl p n :
+  N.eqb mark 32 = false -> label_ok lbl = true ->
+  read_count_line mark ([mark; 32%N] ++ lbl ++ spaces (S p) ++ [mark; 32%N] ++ dec n) = Some n.
+Proof.
+  intros Hm Hl. unfold read_count_line. rewrite strip_prefix_app.
+  rewrite span_while_app by (auto using label_ok_chars; reflexivity).
+  destruct lbl as [|c0 lbl]; [discriminate Hl|].
+  change ([mark; 32%N] ++ dec n) with (mark :: 32%N :: dec n).
+  rewrite drop_spaces_spaces by exact Hm.
+  change (mark :: 32%N :: dec n) with ([mark; 32%N] ++ dec n).
+  rewrite strip_prefix_app. apply parse_dec_dec.
+Qed.
+
+(* ALIGNMENT is a fact about the printer that the reader does not look at: intPadding pads the
+   shorter numeral only, up to the length of the longer one *)
+Definition aligned (pd wd pi wi : nat) : bool :=
+  Nat.eqb (pd + wd) (pi + wi) && (Nat.eqb pd 0 || Nat.eqb pi 0).
+
 Lemma int_padding_spec i d :
   exists pi pd, int_padding i d = (spaces pi, spaces pd) /\
                 aligned pd (length (dec d)) pi (length (dec i)) = true.
@@ -68,20 +106,6 @@ Qed.
 (* ====================================================================== *)
 (** * Hunk headers                                                          *)
 (* ====================================================================== *)
-
-Definition hd_fails (p : N -> bool) (s : bytes) : bool :=
-  match s with [] => true | c :: _ => negb (p c) end.
-
-Lemma span_while_app p a rest :
-  forallb p a = true -> hd_fails p rest = true -> span_while p (a ++ rest) = (a, rest).
-Proof.
-  intros Ha Hr. induction a as [|c a IH].
-  - change ([] ++ rest) with rest. destruct rest as [|c r]; [reflexivity|].
-    cbn [hd_fails] in Hr. cbn [span_while]. destruct (p c); [discriminate|reflexivity].
-  - cbn [forallb] in Ha. apply andb_true_iff in Ha as [Hc Ha].
-    change ((c :: a) ++ rest) with (c :: (a ++ rest)). cbn [span_while]. rewrite Hc, (IH Ha).
-    reflexivity.
-Qed.
 
 (* a range as printed by difflib.FormatRangeUnified *)
 Definition range_ok (r : bytes) : Prop :=
@@ -308,24 +332,122 @@ Qed.
 (** * The whole report                                                      *)
 (* ====================================================================== *)
 
-Lemma build_report_shape i d diff name line ipad dpad :
-  diff <> [] -> int_padding i d = (ipad, dpad) ->
-  build_report i d diff name line
-  = [] ++ nl :: (B "- Snapshot " ++ dpad ++ B "- " ++ dec d)
-       ++ nl :: (B "+ Received " ++ ipad ++ B "+ " ++ dec i)
-       ++ nl :: [] ++ nl :: diff ++ nl :: footer_text name line.
+(* the printer generalised over the two labels; [build_report] is the instance
+   "Snapshot"/"Received" ([build_report_lbl_real]) *)
+Definition build_report_lbl (ld li : bytes) (inserted deleted : nat) (diff name : bytes) (line : nat)
+  : bytes :=
+  match diff with
+  | [] => []
+  | _ =>
+      let '(ipad, dpad) := int_padding inserted deleted in
+      [nl]
+      ++ B "- " ++ (ld ++ B " ") ++ dpad ++ B "- " ++ dec deleted ++ [nl]
+      ++ B "+ " ++ (li ++ B " ") ++ ipad ++ B "+ " ++ dec inserted ++ [nl]
+      ++ [nl]
+      ++ diff
+      ++ [nl]
+      ++ (match name with
+          | [] => []
+          | _ => B "at " ++ name ++ B ":" ++ dec line ++ [nl]
+          end)
+  end.
+
+Lemma build_report_lbl_real i d diff name line :
+  build_report_lbl (B "Snapshot") (B "Received") i d diff name line = build_report i d diff name line.
+Proof. reflexivity. Qed.
+
+Definition render_lbl (ld li : bytes) (r : acc3) (name : bytes) (line : nat) : bytes :=
+  let '(ls, inserted, deleted) := r in
+  build_report_lbl ld li inserted deleted (render_body ls) name line.
+
+Lemma render_lbl_real u name line :
+  render_lbl (B "Snapshot") (B "Received") u name line = render_nocolor u name line.
+Proof. destruct u as [[ls i] d]. reflexivity. Qed.
+
+(* the text of a report with labels [ld], [li] and [S pd], [S pi] spaces behind them *)
+Definition report_text (ld li : bytes) (pd pi d i : nat) (diff name : bytes) (line : nat) : bytes :=
+  [] ++ nl :: ([45%N; 32%N] ++ ld ++ spaces (S pd) ++ [45%N; 32%N] ++ dec d)
+     ++ nl :: ([43%N; 32%N] ++ li ++ spaces (S pi) ++ [43%N; 32%N] ++ dec i)
+     ++ nl :: [] ++ nl :: diff ++ nl :: footer_text name line.
+
+Lemma build_report_lbl_shape ld li i d diff name line :
+  diff <> [] ->
+  exists pi pd, build_report_lbl ld li i d diff name line = report_text ld li pd pi d i diff name line.
 Proof.
-  intros Hne Hp. unfold build_report, footer_text. destruct diff as [|c0 diff]; [congruence|].
-  rewrite Hp. change (B "- Snapshot ") with (B "- " ++ B "Snapshot ").
-  change (B "+ Received ") with (B "+ " ++ B "Received ").
+  intros Hne. destruct (int_padding_spec i d) as (pi & pd & Hp & _). exists pi, pd.
+  unfold build_report_lbl, report_text, footer_text. destruct diff as [|c0 diff]; [congruence|].
+  rewrite Hp. change (spaces (S pd)) with (B " " ++ spaces pd).
+  change (spaces (S pi)) with (B " " ++ spaces pi).
+  change [45%N; 32%N] with (B "- "). change [43%N; 32%N] with (B "+ ").
   rewrite <- !app_assoc. reflexivity.
 Qed.
 
-Lemma count_line_nonl lead p sign n :
-  nonl lead = true -> nonl sign = true -> no_nl (lead ++ spaces p ++ sign ++ dec n).
+Lemma build_report_shape i d diff name line :
+  diff <> [] ->
+  exists pi pd, build_report i d diff name line
+                = report_text (B "Snapshot") (B "Received") pd pi d i diff name line.
+Proof. rewrite <- build_report_lbl_real. apply build_report_lbl_shape. Qed.
+
+Lemma count_line_nonl mark lbl p n :
+  N.eqb mark 10 = false -> label_ok lbl = true ->
+  no_nl ([mark; 32%N] ++ lbl ++ spaces p ++ [mark; 32%N] ++ dec n).
 Proof.
-  intros Hl Hs. apply nonl_no_nl. now rewrite !nonl_app, Hl, Hs, spaces_nonl, dec_nonl.
+  intros Hm Hl. apply nonl_no_nl. rewrite !nonl_app, (label_ok_nonl lbl Hl), spaces_nonl, dec_nonl.
+  cbn [nonl forallb]. now rewrite Hm.
 Qed.
+
+(** the reader on a report text: whatever the two labels and whatever the (positive) numbers of
+    spaces behind them, what is read is the two numbers, the body and the footer *)
+Lemma read_report_text ld li pd pi d i ls name line :
+  label_ok ld = true -> label_ok li = true ->
+  Forall rline_wf ls -> ls <> [] -> name_ok name = true ->
+  read_report (report_text ld li pd pi d i (render_body ls) name line)
+  = Some (report_read_of (ls, i, d) name line).
+Proof.
+  intros Hld Hli Hwf Hne Hname. destruct ls as [|r rs]; [congruence|]. clear Hne.
+  unfold read_report, report_text.
+  rewrite split_nl_app_nl by apply no_nl_nil.
+  rewrite split_nl_app_nl by (apply count_line_nonl; [reflexivity|exact Hld]).
+  rewrite split_nl_app_nl by (apply count_line_nonl; [reflexivity|exact Hli]).
+  rewrite split_nl_app_nl by apply no_nl_nil.
+  rewrite !read_count_line_ok by (reflexivity || assumption).
+  rewrite read_body_ok by exact Hwf.
+  rewrite read_footer_ok by exact Hname.
+  reflexivity.
+Qed.
+
+(* the reader recovers any well-formed non-empty structure from its rendering, whatever the labels *)
+Lemma read_render_lbl_correct ld li (u : acc3) (name : bytes) (line : nat) :
+  label_ok ld = true -> label_ok li = true ->
+  Forall rline_wf (r_lines u) -> r_lines u <> [] -> name_ok name = true ->
+  read_report (render_lbl ld li u name line) = Some (report_read_of u name line).
+Proof.
+  intros Hld Hli Hwf Hne Hname. destruct u as [[ls i] d]. cbn [r_lines fst] in Hwf, Hne.
+  unfold render_lbl.
+  destruct (build_report_lbl_shape ld li i d (render_body ls) name line
+              (render_body_nonempty ls Hne)) as (pi & pd & ->).
+  now apply read_report_text.
+Qed.
+
+(** read_report_label_irrelevant: the labels are wording.  With any two labels (non-empty, free of
+    space and newline) in the place of "Snapshot" and "Received" the report reads to the same
+    counts, lines and footer as the report that go-snaps prints. *)
+Theorem read_report_label_irrelevant ld li (u : acc3) (name : bytes) (line : nat) :
+  label_ok ld = true -> label_ok li = true ->
+  Forall rline_wf (r_lines u) -> r_lines u <> [] -> name_ok name = true ->
+  read_report (render_lbl ld li u name line) = read_report (render_nocolor u name line).
+Proof.
+  intros Hld Hli Hwf Hne Hname. rewrite <- render_lbl_real.
+  rewrite !read_render_lbl_correct by (assumption || reflexivity). reflexivity.
+Qed.
+
+(* the same on [build_report] itself *)
+Corollary read_build_report_label_irrelevant ld li i d ls name line :
+  label_ok ld = true -> label_ok li = true ->
+  Forall rline_wf ls -> ls <> [] -> name_ok name = true ->
+  read_report (build_report_lbl ld li i d (render_body ls) name line)
+  = read_report (build_report i d (render_body ls) name line).
+Proof. intros Hld Hli. exact (read_report_label_irrelevant ld li (ls, i, d) name line Hld Hli). Qed.
 
 (** read_report_correct: the bytes printed by prettyDiff (NO_COLOR) for two different texts carry
     exactly the structure of the unified diff: both counts, every shown line in order (hunk
@@ -340,25 +462,11 @@ Theorem read_report_correct a b name line :
 Proof.
   intros Hne Hname. unfold pretty_diff_nocolor.
   apply beq_neq in Hne as Hb. rewrite Hb.
-  pose proof (unified_wf a b) as Hwf.
-  destruct (unified_has_change a b Hne) as (l & Hl).
-  unfold render_nocolor. destruct (unified_nocolor a b) as [[ls i] d].
-  cbn [r_lines r_ins r_del fst snd] in *.
-  destruct ls as [|r rs]; [destruct Hl as [[]|[]]|]. clear Hl.
-  destruct (int_padding_spec i d) as (pi & pd & Hp & Hal).
-  rewrite (build_report_shape i d _ name line _ _
-             (render_body_nonempty (r :: rs) ltac:(discriminate)) Hp).
-  unfold read_report.
-  rewrite split_nl_app_nl by apply no_nl_nil.
-  rewrite split_nl_app_nl by (apply count_line_nonl; reflexivity).
-  rewrite split_nl_app_nl by (apply count_line_nonl; reflexivity).
-  rewrite split_nl_app_nl by apply no_nl_nil.
-  change (B "- ") with (45%N :: [32%N]). change (B "+ ") with (43%N :: [32%N]).
-  rewrite !read_count_line_ok by reflexivity.
-  rewrite Hal.
-  rewrite read_body_ok by exact Hwf.
-  rewrite read_footer_ok by exact Hname.
-  reflexivity.
+  rewrite <- render_lbl_real.
+  apply (read_render_lbl_correct _ _ (unified_nocolor a b) name line);
+    [reflexivity|reflexivity|apply unified_wf| |exact Hname].
+  destruct (unified_has_change a b Hne) as (l & Hl). intros E. rewrite E in Hl.
+  destruct Hl as [[]|[]].
 Qed.
 
 (* the same statement with the expected reading named *)
@@ -550,8 +658,6 @@ Example read_rejects :
   (* a count that is not a decimal numeral; a numeral with a leading zero *)
   read_report (text_nl [""; "- Snapshot - x"; "+ Received + 1"; ""; "- a"; "+ b"; ""; "at f:3"]) = None /\
   read_report (text_nl [""; "- Snapshot - 01"; "+ Received  + 1"; ""; "- a"; "+ b"; ""; "at f:3"]) = None /\
-  (* misaligned counts *)
-  read_report (text_nl [""; "- Snapshot  - 1"; "+ Received + 1"; ""; "- a"; "+ b"; ""; "at f:3"]) = None /\
   (* an unknown prefix; a one-byte line *)
   read_report (text_nl [""; "- Snapshot - 1"; "+ Received + 1"; ""; "- a"; "* b"; ""; "at f:3"]) = None /\
   read_report (text_nl [""; "- Snapshot - 1"; "+ Received + 1"; ""; "- a"; "+"; ""; "at f:3"]) = None /\
@@ -567,6 +673,72 @@ Example read_rejects :
   read_report (text_nl [""; "- Snapshot - 0"; "+ Received + 0"; ""; ""; "at f:3"]) = None /\
   (* the last line is not terminated *)
   read_report (text_nonl [""; "- Snapshot - 1"; "+ Received + 1"; ""; "- a"; "+ b"; ""; "at f:3"]) = None.
+Proof. vm_compute. repeat split. Qed.
+
+(* 4b. the HEADER.  What is read of a count line is its mark and its number; the label is wording
+       and the number of spaces behind it is alignment. *)
+
+(* the report of [read_example_padding] with "Expected"/"Actual" in the place of "Snapshot"/
+   "Received" (labels of different lengths: the paddings differ, 1 and 4 spaces instead of 1 and 2)
+   reads to the SAME [report_read] *)
+Example read_example_other_labels :
+  let a := text_nonl ["1";"2";"3";"4";"5";"6";"7";"8";"9";"10"] in
+  let b := B "x" in
+  let rest := [""; "- 1"; "- 2"; "- 3"; "- 4"; "- 5"; "- 6"; "- 7"; "- 8"; "- 9"; "- 10"; "+ x"; "";
+               "at f:3"] in
+  pretty_diff_nocolor a b (B "f") 3 = text_nl ([""; "- Snapshot - 10"; "+ Received  + 1"] ++ rest)
+  /\ read_report (text_nl ([""; "- Expected - 10"; "+ Actual    + 1"] ++ rest))
+     = read_report (pretty_diff_nocolor a b (B "f") 3)
+  /\ read_report (text_nl ([""; "- Expected - 10"; "+ Actual    + 1"] ++ rest))
+     = Some (report_read_of (unified_nocolor a b) (B "f") 3)
+  /\ option_map (fun rr => (rr_del_count rr, rr_ins_count rr, length (rr_lines rr), rr_footer rr))
+                (read_report (text_nl ([""; "- Expected - 10"; "+ Actual    + 1"] ++ rest)))
+     = Some (10, 1, 11, Some (B "f", 3)).
+Proof. vm_compute. repeat split. Qed.
+
+(* the generalised printer on the same pair of texts: its bytes, and what is read of them *)
+Example read_example_render_lbl :
+  let a := text_nonl ["1";"2";"3";"4";"5";"6";"7";"8";"9";"10"] in
+  let b := B "x" in
+  firstn 4 (split_nl (render_lbl (B "Expected") (B "Actual") (unified_nocolor a b) (B "f") 3))
+  = [ []; B "- Expected - 10"; B "+ Actual  + 1"; [] ]
+  /\ read_report (render_lbl (B "Expected") (B "Actual") (unified_nocolor a b) (B "f") 3)
+     = read_report (pretty_diff_nocolor a b (B "f") 3).
+Proof. vm_compute. split; reflexivity. Qed.
+
+(* labels of other alphabets and with punctuation; counts that are not aligned *)
+Example read_header_accepts :
+  let rr := Some {| rr_del_count := 1; rr_ins_count := 1; rr_lines := [RDel (ln "a"); RIns (ln "b")];
+                    rr_footer := Some (B "f", 3) |} in
+  read_report (text_nl [""; "- Snapshot - 1"; "+ Received + 1"; ""; "- a"; "+ b"; ""; "at f:3"]) = rr /\
+  read_report (text_nl [""; "- Snapshot  - 1"; "+ Received + 1"; ""; "- a"; "+ b"; ""; "at f:3"]) = rr /\
+  read_report (text_nl [""; "- Expected - 1"; "+ Actual + 1"; ""; "- a"; "+ b"; ""; "at f:3"]) = rr /\
+  read_report (text_nl [""; "- want: - 1"; "+ got:      + 1"; ""; "- a"; "+ b"; ""; "at f:3"]) = rr /\
+  read_report (text_nl [""; "- - - 1"; "+ + + 1"; ""; "- a"; "+ b"; ""; "at f:3"]) = rr.
+Proof. vm_compute. repeat split. Qed.
+
+Example read_header_rejects :
+  (* an empty label (first line; second line) *)
+  read_report (text_nl [""; "-  - 1"; "+ Received + 1"; ""; "- a"; "+ b"; ""; "at f:3"]) = None /\
+  read_report (text_nl [""; "- Snapshot - 1"; "+  + 1"; ""; "- a"; "+ b"; ""; "at f:3"]) = None /\
+  read_report (text_nl [""; "- - 1"; "+ + 1"; ""; "- a"; "+ b"; ""; "at f:3"]) = None /\
+  (* a numeral with a leading zero (first line; second line); an empty numeral; a signed numeral;
+     bytes after the numeral *)
+  read_report (text_nl [""; "- Snapshot - 01"; "+ Received + 1"; ""; "- a"; "+ b"; ""; "at f:3"]) = None /\
+  read_report (text_nl [""; "- Snapshot - 1"; "+ Received + 01"; ""; "- a"; "+ b"; ""; "at f:3"]) = None /\
+  read_report (text_nl [""; "- Snapshot - "; "+ Received + 1"; ""; "- a"; "+ b"; ""; "at f:3"]) = None /\
+  read_report (text_nl [""; "- Snapshot - +1"; "+ Received + 1"; ""; "- a"; "+ b"; ""; "at f:3"]) = None /\
+  read_report (text_nl [""; "- Snapshot - 1 "; "+ Received + 1"; ""; "- a"; "+ b"; ""; "at f:3"]) = None /\
+  (* the marks swapped: both lines; the leading marks only; the marks before the numerals only *)
+  read_report (text_nl [""; "+ Snapshot + 1"; "- Received - 1"; ""; "- a"; "+ b"; ""; "at f:3"]) = None /\
+  read_report (text_nl [""; "+ Snapshot - 1"; "- Received + 1"; ""; "- a"; "+ b"; ""; "at f:3"]) = None /\
+  read_report (text_nl [""; "- Snapshot + 1"; "+ Received - 1"; ""; "- a"; "+ b"; ""; "at f:3"]) = None /\
+  (* the two count lines in the other order *)
+  read_report (text_nl [""; "+ Received + 1"; "- Snapshot - 1"; ""; "- a"; "+ b"; ""; "at f:3"]) = None /\
+  (* no space between the label and the second mark; a label of two words; a missing count line *)
+  read_report (text_nl [""; "- Snapshot- 1"; "+ Received + 1"; ""; "- a"; "+ b"; ""; "at f:3"]) = None /\
+  read_report (text_nl [""; "- Stored text - 1"; "+ Received + 1"; ""; "- a"; "+ b"; ""; "at f:3"]) = None /\
+  read_report (text_nl [""; "- Snapshot - 1"; ""; "- a"; "+ b"; ""; "at f:3"]) = None.
 Proof. vm_compute. repeat split. Qed.
 
 (* 5. the two hypotheses of [read_report_correct] are needed:
@@ -602,6 +774,10 @@ Proof. split; [discriminate|vm_compute; split; reflexivity]. Qed.
 Close Scope string_scope.
 
 Print Assumptions read_report_correct.
+Print Assumptions read_report_text.
+Print Assumptions read_render_lbl_correct.
+Print Assumptions read_report_label_irrelevant.
+Print Assumptions read_build_report_label_irrelevant.
 Print Assumptions printed_counts.
 Print Assumptions printed_lines_truthful.
 Print Assumptions printed_context_common.
